@@ -78,9 +78,13 @@ def load(backend, tag="", asan=False):
 def lru_caches(ns):
     """Every module-level lru_cache of the copy, discovered dynamically."""
     out = []
-    for m in (ns.url, ns.parse):
-        for k, v in vars(m).items():
-            if hasattr(v, "cache_clear") and hasattr(v, "cache_info"):
+    seen = set()
+    # every Python module of this copy (a cache added to _query/_path/_quoters/... by a change must be found as well)
+    mods = [m for n, m in sorted(sys.modules.items()) if (n == ns.name or n.startswith(ns.name + ".")) and m is not None and not n.endswith("._quoting_c")]
+    for m in mods:
+        for k, v in list(vars(m).items()):
+            if hasattr(v, "cache_clear") and hasattr(v, "cache_info") and id(v) not in seen:
+                seen.add(id(v))
                 out.append((m, k, v))
     return out
 
